@@ -34,6 +34,20 @@ Theorem C18_registry_hits_exec : forall l t, In (l, t) lang_table ->
 Proof. exact registry_hits_exec. Qed.
 Print Assumptions C18_registry_hits_exec.
 
+(* for EVERY probe string the rows are partitioned Less* Equal* Greater* (rank Lt=0, Eq=1, Gt=2, panic=3):
+   the precondition under which binary_search_by returns an Equal row whenever one exists; it holds
+   because a row (no '-', bytes above '-') compares with a probe as it compares lexicographically with
+   the probe's first subtag *)
+Theorem C18_search_partitioned : forall sub i j, (i < j)%nat -> (j < nrows)%nat ->
+  (rank3 (lang_cmp (fst (row_at i)) sub) <= rank3 (lang_cmp (fst (row_at j)) sub) <= 2)%nat.
+Proof. exact (registry_partitioned eq_refl). Qed.
+Print Assumptions C18_search_partitioned.
+
+Theorem C18_first_subtag_semantics : forall i sub, (i < nrows)%nat ->
+  lang_cmp (fst (row_at i)) sub = Some (cmp_bytes (fst (row_at i)) (first_subtag sub)).
+Proof. exact (fun i sub Hi => lang_cmp_row (fst (row_at i)) sub eq_refl (proj1 (row_at_plain i Hi)) (proj2 (row_at_plain i Hi))). Qed.
+Print Assumptions C18_first_subtag_semantics.
+
 (* ------------------------------------------------------------------ script tags and their order *)
 
 (* OpenType script-tag registry: the nine Indic scripts with a second-generation shaping model
